@@ -20,7 +20,8 @@ class GeneratorWrapper:
         return self
 
     def __next__(self) -> Any:
-        return self.send(obj=None)
+        self._initialized = True
+        return self._resume(obj=None)  # next() sends nothing: there is no value to check against the send type
 
     def __getattr__(self, name: str) -> Any:
         return getattr(self._generator, name)
@@ -37,6 +38,9 @@ class GeneratorWrapper:
         else:
             self._initialized = True
 
+        return self._resume(obj=obj)
+
+    def _resume(self, obj) -> Any:
         try:
             returned_value = self._generator.send(obj)
         except StopIteration as ex:
